@@ -186,6 +186,9 @@ func genIters(T *sim.Tape) int {
 	case 0:
 		return 0
 	case 1:
+		if T.Bool("iters-min") {
+			return math.MinInt64
+		}
 		return math.MaxInt64
 	case 2:
 		return -1 - T.Intn(1000, "iters-neg") // not produced by the testing package, but an int the API accepts and the format can carry
